@@ -118,6 +118,8 @@ class World(object):
         d = self.free.pop() if self.free else os.path.join(self.chk.tmp(), "in")
         os.makedirs(os.path.dirname(d), exist_ok=True)
         reg = gamma.write_plotfile(d, ap, cfg_)
+        if cfgseed % 5 == 2:
+            gamma.add_stale_files(d, ap, cfg_, cfgseed)     # left-overs of an earlier, larger plotfile in the same directory
         A = alpha.abstract(d, reg)
         if alpha.wellformed(A):
             raise core.MachineryError("gamma/alpha self-check failed: %r" % alpha.wellformed(A)[:2])
